@@ -292,7 +292,12 @@ func check(prop, tier string) int {
 	if procs > runs {
 		procs = runs
 	}
-	budgetMs := 0
+	// wall-clock cap per batch: the thorough tier stops drawing new runs after 15 minutes by default (counted as
+	// budget.stopped_early in the evidence), the quick tier after 4; VERIF_BUDGET_S overrides (0 = no cap)
+	budgetMs := 240 * 1000
+	if tier == "thorough" {
+		budgetMs = 900 * 1000
+	}
 	if v := os.Getenv("VERIF_BUDGET_S"); v != "" {
 		if n, err := strconv.Atoi(v); err == nil {
 			budgetMs = n * 1000
